@@ -69,6 +69,8 @@ pub struct FnInfo {
     pub const_params: Vec<String>,
     /// parameters passed as `&mut <semantic-model type>`: threaded through (returned with the result)
     pub mut_params: Vec<String>,
+    /// the `mut_params` of type `Option<&mut T>`: an optional reference (the callee returns the possibly updated `T`)
+    pub opt_mut_params: Vec<String>,
     /// declared return type (`Ty::Res` for `Result`)
     pub ret: Ty,
     /// position in the emission order
@@ -543,6 +545,7 @@ impl Globals {
                         let mut self_mode = SelfMode::None;
                         let mut params = Vec::new();
                         let mut mut_params = Vec::new();
+                        let mut opt_mut_params = Vec::new();
                         for a in &sig.inputs {
                             match a {
                                 syn::FnArg::Receiver(r) => {
@@ -557,6 +560,30 @@ impl Globals {
                                         syn::Pat::Wild(_) => "_".to_string(),
                                         other => return err_at(path, other.span(), "unsupported parameter pattern"),
                                     };
+                                    // `&mut` may only occur at the top of a parameter type or as `Option<&mut T>`: a reference
+                                    // stored anywhere else would silently become a copy
+                                    match &*pt.ty {
+                                        syn::Type::Reference(r) => {
+                                            if has_mut_ref(&r.elem) {
+                                                return err_at(path, pt.ty.span(), "`&mut` reference nested in a parameter type is not supported");
+                                            }
+                                        }
+                                        other => {
+                                            if let Some(inner) = option_of_mut_ref(other) {
+                                                if has_mut_ref(inner) || name == "_" {
+                                                    return err_at(path, pt.ty.span(), "`&mut` reference nested in a parameter type is not supported");
+                                                }
+                                                mut_params.push(name.clone());
+                                                opt_mut_params.push(name.clone());
+                                            } else if has_mut_ref(other) {
+                                                return err_at(
+                                                    path,
+                                                    pt.ty.span(),
+                                                    "`&mut` reference stored in a parameter type (other than `Option<&mut T>`) is not supported",
+                                                );
+                                            }
+                                        }
+                                    }
                                     if let syn::Type::Reference(r) = &*pt.ty {
                                         if r.mutability.is_some() {
                                             // cursors of the semantic models and plain integers are threaded through
@@ -564,7 +591,7 @@ impl Globals {
                                             // and from every other argument)
                                             let int_ref = matches!(
                                                 conv_ty(path, &r.elem, self_ty.as_deref(), &type_names),
-                                                Ok(Ty::Int(_)) | Ok(Ty::Named(_))
+                                                Ok(Ty::Int(_)) | Ok(Ty::Named(_)) | Ok(Ty::List(_, _))
                                             );
                                             if !(is_model_type(&r.elem) || int_ref) || name == "_" {
                                                 return err_at(
@@ -588,7 +615,12 @@ impl Globals {
                         }
                         let ret = match &sig.output {
                             syn::ReturnType::Default => Ty::Unit,
-                            syn::ReturnType::Type(_, t) => conv_ty(path, t, self_ty.as_deref(), &type_names)?,
+                            syn::ReturnType::Type(_, t) => {
+                                if has_mut_ref(t) {
+                                    return err_at(path, t.span(), "a `&mut` reference in the return type is not supported (it would become a copy)");
+                                }
+                                conv_ty(path, t, self_ty.as_deref(), &type_names)?
+                            }
                         };
                         if let Sel::From(d, s) = sel {
                             g.from_impls.push((type_key(path, s, &type_names), type_key(path, d, &type_names), (self_ty.clone(), fn_name.clone())));
@@ -602,6 +634,7 @@ impl Globals {
                             params,
                             err_state: matches!(ret, Ty::Res(_, _)) && (self_mode == SelfMode::Mut || !mut_params.is_empty()),
                             mut_params,
+                            opt_mut_params,
                             const_params,
                             ret,
                             order,
@@ -612,6 +645,38 @@ impl Globals {
         }
         Ok(())
     }
+}
+
+/// does the type mention a `&mut` reference anywhere?
+pub fn has_mut_ref(t: &syn::Type) -> bool {
+    match t {
+        syn::Type::Reference(r) => r.mutability.is_some() || has_mut_ref(&r.elem),
+        syn::Type::Paren(p) => has_mut_ref(&p.elem),
+        syn::Type::Group(p) => has_mut_ref(&p.elem),
+        syn::Type::Slice(s) => has_mut_ref(&s.elem),
+        syn::Type::Array(a) => has_mut_ref(&a.elem),
+        syn::Type::Tuple(tt) => tt.elems.iter().any(has_mut_ref),
+        syn::Type::Path(p) => p.path.segments.iter().any(|seg| generic_args(seg).into_iter().any(has_mut_ref)),
+        _ => false,
+    }
+}
+
+/// `Option<&mut T>`: the `T`
+pub fn option_of_mut_ref(t: &syn::Type) -> Option<&syn::Type> {
+    if let syn::Type::Path(p) = t {
+        let last = p.path.segments.last()?;
+        if last.ident == "Option" {
+            let args = generic_args(last);
+            if args.len() == 1 {
+                if let syn::Type::Reference(r) = args[0] {
+                    if r.mutability.is_some() {
+                        return Some(&r.elem);
+                    }
+                }
+            }
+        }
+    }
+    None
 }
 
 /// by-value semantic models (`&mut` parameters of these types are threaded through)
@@ -669,6 +734,7 @@ fn register_builtins(g: &mut Globals) {
             self_mode: mode,
             params: params.into_iter().map(|(a, b)| (a.to_string(), b)).collect(),
             mut_params: vec![],
+            opt_mut_params: vec![],
             const_params: vec![],
             err_state: ERR_STATE_BUILTINS.contains(&(st, name)),
             ret,
@@ -686,6 +752,8 @@ fn register_builtins(g: &mut Globals) {
     let iores = |t: Ty| Ty::Res(Box::new(t), Box::new(io_err.clone()));
     add("WriteCursor", "write_all", SelfMode::Mut, vec![("buf", bytes.clone())], iores(Ty::Unit));
     add("WriteCursor", "write", SelfMode::Mut, vec![("buf", bytes.clone())], iores(Ty::Int(64)));
+    add("ReadCursor", "set_position", SelfMode::Mut, vec![("pos", Ty::Int(64))], Ty::Unit);
+    add("WriteCursor", "set_position", SelfMode::Mut, vec![("pos", Ty::Int(64))], Ty::Unit);
     add("Octets", "get_u8", SelfMode::Mut, vec![], res(Ty::Int(8)));
 
     add("Octets", "get_u16", SelfMode::Mut, vec![], res(Ty::Int(16)));
@@ -694,6 +762,38 @@ fn register_builtins(g: &mut Globals) {
     add("Octets", "get_varint", SelfMode::Mut, vec![], res(Ty::Int(64)));
     add("Octets", "get_bytes", SelfMode::Mut, vec![("len", Ty::Int(64))], res(Ty::Named("Octets".into())));
     add("Octets", "get_bytes_with_varint_length", SelfMode::Mut, vec![], res(Ty::Named("Octets".into())));
+    // `renetcode/src/crypto.rs`: EXTERNAL interface (not translated), mapped to the abstract AEAD parameter `RustSem.Aead`
+    {
+        let cerr = Ty::Opaque("RustSem.CryptoError".into());
+        let bytes_slice = Ty::List(Box::new(Ty::u8()), ListKind::Slice);
+        let arr = Ty::List(Box::new(Ty::u8()), ListKind::Array);
+        for (name, second) in [
+            ("encrypt_in_place", ("sequence", Ty::Int(64))),
+            ("dencrypted_in_place", ("sequence", Ty::Int(64))),
+            ("encrypt_in_place_xnonce", ("xnonce", arr.clone())),
+            ("dencrypted_in_place_xnonce", ("xnonce", arr.clone())),
+        ] {
+            g.fns.entry((None, name.to_string())).or_default().push(FnInfo {
+                group: String::new(),
+                ns: BUILTIN_NS.to_string(),
+                self_ty: None,
+                name: name.to_string(),
+                self_mode: SelfMode::None,
+                params: vec![
+                    ("buffer".to_string(), bytes_slice.clone()),
+                    (second.0.to_string(), second.1.clone()),
+                    ("private_key".to_string(), arr.clone()),
+                    ("aad".to_string(), bytes_slice.clone()),
+                ],
+                mut_params: vec!["buffer".to_string()],
+                opt_mut_params: vec![],
+                const_params: vec![],
+                err_state: true,
+                ret: Ty::Res(Box::new(Ty::Unit), Box::new(cerr.clone())),
+                order: 0,
+            });
+        }
+    }
     // free function `octets::varint_len`
     g.fns.entry((None, "varint_len".to_string())).or_default().push(FnInfo {
         group: String::new(),
@@ -703,6 +803,7 @@ fn register_builtins(g: &mut Globals) {
         self_mode: SelfMode::None,
         params: vec![("v".to_string(), Ty::Int(64))],
         mut_params: vec![],
+        opt_mut_params: vec![],
         const_params: vec![],
         err_state: false,
         ret: Ty::usize(),
